@@ -44,16 +44,25 @@ class RbufGen:
         out.append(["new cap=2 fail=1", "destroy"])
         out.append(["new cap=2 fail=2", "destroy"])
         out.append(["new_default", "enqueue 1", "dequeue", "dequeue", "destroy"])
+        if focus in ("reject", "all"):
+            for cap in (1, 3):
+                for idx in (-2147483648, -1, 0, cap - 1, cap, cap + 1, 2147483647):
+                    out.append([f"new cap={cap}", "enqueue 7", f"peek {idx}", "dequeue", "dequeue", f"peek {idx}", "destroy"])
         return out
 
     def random(self, rng, n, tier, focus=None):
         out = []
         for _ in range(n):
             cap = rng.choice([1, 2, 3, 4, 5, 7, 8, 10, 12])
-            ops = [f"new cap={cap}"]
+            ops = [f"new cap={cap}"] if rng.random() > 0.05 else ["new_default"]
+            if ops[0] == "new_default":
+                cap = 10
             length = rng.randint(1, 60)
             p_enq = rng.choice([0.3, 0.5, 0.7, 0.9])
             for _ in range(length):
+                if focus in ("reject", "all") and rng.random() < 0.15:
+                    ops.append(f"peek {rng.choice([-1, 0, cap - 1, cap, cap + 1, -2147483648, 2147483647, rng.randint(-3, cap + 3)])}")
+                    continue
                 if rng.random() < p_enq:
                     v = rng.choice([0, 1, 2**64 - 1]) if rng.random() < 0.1 else rng.randint(1, 999)
                     ops.append(f"enqueue {v}")
